@@ -2,7 +2,7 @@
 import verif as V
 
 PROP = "C08"
-SPEC = "Bng.Spec.C08"
+SPEC = ["Bng.Spec.C08", "Bng.Spec.C08Names"]
 MON = ["stop-unstarted", "stop-before-start", "dup-stop", "lost-stop", "identifiers", "gigawords"]
 COMPS = [
     V.Component("acct", monitors=MON),
@@ -45,6 +45,24 @@ ASSUME = [
     "the request and the client gets an error (generated sequences: the server answers from a refused socket state; "
     "true silence until the client's timeout is exercised in the corpus only, with a 25 ms timeout)",
     "session ids are not reused (RADIUS requires Acct-Session-Id to be unique); the generators never start an id twice",
+    "session ids are opaque in the model (numbers); what the CODE derives from the id string is covered separately: the file "
+    "name (model Bng.AcctNames.fileName = url.PathEscape(id) + `.json`; theorems Bng.Spec.C08Names: injective, a plain entry "
+    "of sessions/ for every byte string, always matched by the recovery's `.json` filter, never another session's `.tmp` file) "
+    "is compared with the real directory listing in every `dur=` observation, and the model id of a session is the rank of "
+    "its file name, so that the model's `recovery in id order` is the code's os.ReadDir order. Every generated sequence runs "
+    "under one of 13 assignments of concrete ids to the tags s1..s9 drawn from the PRNG (harness/cmd/acct/gen.go idSchemes): "
+    "the tags themselves; proper prefixes of one another in both directions (sub-1 / sub-10 / sub-100 ..); an id plus the "
+    "suffixes .json / .tmp / .json.tmp / .json.json of another; glob metacharacters * ? [ ] { } and backslash; ids differing only in "
+    "case; path separators and dot segments (a/b, ../x, ../pending, .., ., /abs, a/, a//b); percent signs (a%2Fb next to a/b); "
+    "space, tab, comma, colon, pipe, quotes, <>&, two-byte UTF-8; record-id look-alikes (sub-1-2-1, -2-). Alphabet: printable "
+    "ASCII, tab and valid UTF-8, 1 to 13 bytes. NOT exercised: the empty id, NUL and other control bytes, invalid UTF-8 (the "
+    "JSON round trip of the session file replaces such bytes, so the recovered Stop would carry a different id), ids whose "
+    "escaped name exceeds NAME_MAX (the persist then fails silently, r-gaps C6), a case-insensitive or normalising file "
+    "system (ids differing only in case would then share a file). The ids of pending records (`<id>-<status>-<unixnano>`, "
+    "the key of the retry map and of pending.json) are numbered by the harness in creation order and are fresh numbers in "
+    "the model: two records of one session and status created within the same nanosecond would collide, which no run produces. "
+    "Component acctretry keeps the tags as ids (it never crashes or restarts, so it never reads a file back); acctdirect "
+    "persists nothing",
     "a file write is either complete, absent, or leaves an empty/truncated file that recovery treats as corrupt (crashTorn); "
     "rename and remove are atomic; there is no fsync in the code and power-loss reordering of rename vs data is not modelled. "
     "JSON round trip of the persisted structs is exercised by the harness, not modelled",
@@ -56,6 +74,8 @@ ASSUME = [
     "only component acctdirect applies (direct send, finding KF-acct-direct-send). acctdirect drives RELEASE and PADT; "
     "DECLINE, lease expiry, admin termination and the DHCP Start lost during an outage go through the same direct send "
     "and are not driven here (C16's dhcpterm drives those paths with a server that is always up)",
+    "fixed while building the id schemes: KF-acct-session-file-path (ids with `/` or dot segments were persisted outside "
+    "sessions/ or in a sub-directory the recovery skips). "
     "known findings (not repaired): D24, KF-acct-recovery-volatile, KF-acct-start-window, KF-acct-direct-send — see known_findings.json",
 ]
 
